@@ -553,6 +553,11 @@ static void srv_receive(int srvidx, int fd, int is_tcp, const uint8_t *msg, size
   if (srv_out.overflow || srv_out.len > 65535) {
     return;
   }
+  if (sim_zerolen_with_udp_reply && !is_tcp) {
+    uint32_t zs = sim_new_serial(srvidx, fd, q.id, SA_ZEROLEN, 1, 256, txidx);
+    srv_send_pkt(srvidx, fd, 0, (const uint8_t *)"", 0, zs, d, srvidx);
+    sim_note("zerolen_next_to_reply");
+  }
   srv_send_pkt(srvidx, fd, is_tcp, srv_out.b, srv_out.len, serial, d, pl.action == SA_WRONGADDR ? -1 : srvidx);
   if (pl.action == SA_DUP) {
     srv_plan_t p2 = pl;
